@@ -189,6 +189,7 @@ func newWorldB(p *Plan, out *Outcome, o bOpts) *worldB {
 	w.drv = NewDriver(out, p.Seed, clocks...)
 	w.net = NewSimNet(out)
 	w.bus = NewSimBus(w.drv, out, p.Seed)
+	w.bus.Prefix = clusterPrefix(p)
 	var addrs []string
 	for i := 0; i < o.nodes; i++ {
 		addrs = append(addrs, fmt.Sprintf("http://n%d.sim:8081", i))
